@@ -125,6 +125,43 @@ CHECKS = {
         note=TRUST + "rotation with an argument of another kind than the constructor's is outside the statement and not generated.",
         technique="TLA+ spec (Exporter.tla) model-checked with TLC; TLC-generated behaviours replayed and validated with TraceExporter.tla",
     ),
+    "C11": dict(
+        category="model_checking",
+        text=("TLC model-checks BlockTable (Abs: duplicate-free sequence, Add = find-or-append; Impl: reverse index of references) "
+              "for all histories of add/clear/copy/destroy up to 5-6 steps; TLC emits every history and the driver replays them on "
+              "each of the nine real tables with values built in fresh objects (pairs differing in exactly one optional member), "
+              "plus growth sequences of thousands of adds; every returned index, size and read-back value is validated by TLC. "
+              "Exporter streams across many flushes: TLC checks every written table for duplicates and index closure."),
+        design_ref="DESIGN.md section 3 / C11",
+        note=TRUST + "value ids are mapped to concrete table values by the driver (harness/tbl_driver.cpp).",
+        technique="TLA+ spec (BlockTable.tla) model-checked with TLC; TLC-generated histories replayed on real tables and validated "
+                  "with TraceTables.tla; table checks of TraceExporter.tla on real output bytes",
+    ),
+    "C17": dict(
+        category="model_checking",
+        text=("TLC checks the timestamp formulas of the code in W-bit two's-complement words against exact arithmetic for every "
+              "word (including the minimum) as offset and a grid of instants/rates (exact offset, inverse, refusal leaves value "
+              "unchanged, ordering), and the earliest-time rule of the block model for all arrival orders of timed/untimed, "
+              "storable/unstorable records. Recorded calls of the real Timestamp under UBSan (exhaustive small grid, boundary "
+              "values up to INT64_MIN/MAX, rates 1..10^9, random) are verified by TLC with unbounded arithmetic; on real exporter "
+              "output TLC checks earliest-time <= every stored instant and exact recovery of every record time."),
+        design_ref="DESIGN.md section 3 / C17",
+        note=TRUST + "UBSan for undefined arithmetic; 64-bit values are sampled (boundaries + random), the scaled word model is exhaustive.",
+        technique="TLA+ spec (Timestamp.tla, Exporter.tla) model-checked with TLC; TLC trace validation with unbounded arithmetic "
+                  "(TraceTimestamp.tla, TraceExporter.tla)",
+    ),
+    "C19": dict(
+        category="model_checking",
+        text=("TLC model-checks BlockTable Impl (keys are references into a table's storage; dereferencing a key whose storage was "
+              "cleared or destroyed is the bad state ub) against Abs for all histories of add/clear/copy/destroy over three block "
+              "slots; the pinned shallow copy is a seeded self-test. Every generated history containing a copy is replayed under "
+              "AddressSanitizer on real blocks for nine tables x copy/move construction and assignment x CdnsBlock/CdnsBlockRead "
+              "and blocks returned by the reader; TLC validates every index/size/value and that a copy owns all its lookup keys."),
+        design_ref="DESIGN.md section 3 / C19",
+        note=TRUST + "ASan/UBSan; the CDNS_VERIF probe reading key addresses.",
+        technique="TLA+ spec (BlockTable.tla) model-checked with TLC; TLC-generated histories replayed under ASan and validated with "
+                  "TraceTables.tla",
+    ),
 }
 
 PENDING_REASON = "check not built yet in this revision (specification in progress); see DESIGN.md"
